@@ -348,5 +348,11 @@ m("C17", "C17-temporary-for-index-zero", "R17-scope:findLocal:temporary-only-for
 m("C20", "C20-package-table-through-loaded", "R20-order:packageTable:own-registry-slot", ("loadlib.go", "\treturn L.GetField(L.Get(RegistryIndex), \"_PACKAGE\")\n", "\treturn L.GetField(L.GetField(L.Get(RegistryIndex), \"_LOADED\"), LoadLibName)\n"))
 for _p in ("C11", "C05"):
     m(_p, _p + "-pcall-does-not-consult-the-context", "R11-exit:PCall:context-consulted-after-the-call", ("state.go", "\tls.Call(nargs, nret)\n\tif ls.ctx != nil && ls.ctx.Err() != nil {\n", "\tls.Call(nargs, nret)\n\tif false && ls.ctx != nil && ls.ctx.Err() != nil {\n"))
+m("C19", "C19-read-walks-the-format-string", "R19-buffers:fileReadAux:format-selected-by-the-character-after-the-star", ("iolib.go", "\t\t\tswitch options[1] {\n", "\t\t\tfor _, opt := range options[1:2] {\n\t\t\t\t_ = opt\n\t\t\t}\n\t\t\tswitch options[1] {\n"))
+m("C19", "C19-setvbuf-line-not-accepted", "R19-options:fileSetVBuf:filebufOptions:list-and-cases-agree", ("iolib.go", "var filebufOptions = []string{\"no\", \"full\", \"line\"}", "var filebufOptions = []string{\"no\", \"full\"}"))
+m("C19", "C19-open-default-mode-by-count", "R19-options:ioOpenFile:default-mode-for-absent-and-nil", ("iolib.go", "\tif L.Get(2) == LNil {\n\t\t// no mode, or nil: the default\n\t\tL.SetTop(1)\n", "\tif L.GetTop() == 1 {\n"))
+m("C14", "C14-gsub-no-match-returns-the-argument", "R14-gsub:strGsub:first-result-is-a-string-built-here", ("stringlib.go", "\t\t// the subject as a string (the argument itself may be a number)\n\t\tL.Push(LString(str))\n", "\t\tL.SetTop(1)\n"))
+m("C15", "C15-log-of-subnormal-unscaled", "R15-mathmap:lnOf:math.Log#", ("mathlib.go", "\tif x > 0 && x < 0x1p-1022 {\n\t\treturn math.Log(x*0x1p+54) - 54*math.Ln2\n\t}\n", ""))
+m("C15", "C15-log10-scaled-wrong-correction", "R15-mathmap:log10Of:math.Log10#1:no-subnormal-argument", ("mathlib.go", "- 54*(math.Ln2/math.Ln10)", "- 54*math.Ln2"))
 if __name__ == "__main__":
     main()
